@@ -178,9 +178,15 @@ class InUnits(Contract):
         strip = lambda u: u.replace(" each month", "").replace(" per month", "")
         ok_vals, ok_labels, ok_shape, ok_frame = [], [], [], []
         idx = S.idx("i", a["N"]) if form == " each month" else None
+        from pyvc.values import Arr as _Arr
         at = (lambda x: x[idx]) if idx is not None else (lambda x: x)
         for j, r in enumerate(unwrap(res)):
             r = V(r)
+            if idx is not None and not all(isinstance(unwrap(getattr(r, n)), (_Arr, list)) for n in ("kcals", "fat", "protein")):
+                # a monthly series went in and a single value came out: the shape clause fails (and nothing else can be said)
+                ok_shape.append(V(False))
+                ok_vals.append(V(False))
+                continue
             tk, tf, tp = KBASE[j % 5], FBASE[j], FBASE[(j + 3) % 6]
             ck = spec_multiplier("kcals", tk, a) / spec_multiplier("kcals", strip(ku), a)
             cf = spec_multiplier("fat", tf, a) / spec_multiplier("fat", strip(fu), a)
